@@ -1009,8 +1009,28 @@ def _pump(r, max_steps=10000):
         a = r.upd_step()
         b = r.deliver()
         if a is None and b is None:
-            return
-    raise RuntimeError('pump did not reach quiescence')
+            return True
+    return False
+
+
+def _ready(ctx, r, what):
+    """after the initial pump every value must have been fetched (is_updated); otherwise reads are broken: report it"""
+    if getattr(r.param, 'is_updated', False):
+        return True
+    ctx.witness('initial-fetch', 'the values of the parameters were not all fetched/decoded after connecting (reads do not complete)',
+                {'scenario': what, 'params': [(p.group, p.name, p.ctype) for p in r.dev.param_toc]},
+                cached=repr(getattr(r.param, 'values', None))[:300])
+    return False
+
+
+def _call(r, fn, *a):
+    """call into the library; -> (raised?, exception or result).  A call that would block for the 60 s timeout counts as raising."""
+    try:
+        return False, r.s.call(fn, *a)
+    except WouldBlock as e:
+        return True, e
+    except Exception as e:
+        return True, e
 
 
 def _bits(ct, v):
@@ -1053,6 +1073,8 @@ def _misc_case(ctx, S, routing, reqs, ctypes, label):
     dev = S.CrazyflieDevice(protocol_version=5, param_toc=ps)
     r = Real(dev, {}, routing)
     _pump(r)
+    if not _ready(ctx, r, 'misc ' + label):
+        return False
     oracle = copy.deepcopy(dev)
     oracle.requests = []
     got = {}
@@ -1071,7 +1093,7 @@ def _misc_case(ctx, S, routing, reqs, ctypes, label):
         fn = {'getdef': r.param.get_default_value, 'getstate': r.param.persistent_get_state, 'store': r.param.persistent_store,
               'clear': r.param.persistent_clear}[kind]
         cb = mk(rid, ctypes[i]) if with_cb else None
-        r.s.call(fn, name, cb) if with_cb or kind in ('store', 'clear') else None
+        _call(r, fn, name, cb)
         tag, val = _expected_misc(oracle, S, kind, i)
         if with_cb:
             expected[rid] = [(name, val)]
@@ -1129,6 +1151,8 @@ def _search_sync(ctx):
     for ct in CTYPES:
         r.param.add_update_callback(group='t', name=ct, cb=lambda n, v: calls.append(('name', n, v)))
     _pump(r)
+    if not _ready(ctx, r, 'all types'):
+        return
     for i, ct in enumerate(CTYPES):
         name = 't.' + ct
         if ct in ('float', 'double'):
@@ -1144,9 +1168,8 @@ def _search_sync(ctx):
         for v in vals:
             del calls[:]
             n0 = len(dev.requests)
-            try:
-                r.s.call(r.param.set_value, name, v)
-            except Exception as e:
+            raised, e = _call(r, r.param.set_value, name, v)
+            if raised:
                 ctx.witness('set-roundtrip', 'set_value raised for an in-range value', {'type': ct, 'value': repr(v)}, got=repr(e))
                 continue
             _pump(r)
@@ -1166,11 +1189,7 @@ def _search_sync(ctx):
                             device=repr(devbits), cached=repr(cached), callbacks=repr(calls))
         for v in bad:
             n0, before = len(dev.requests), dev.param_toc[i].value
-            raised = False
-            try:
-                r.s.call(r.param.set_value, name, v)
-            except Exception:
-                raised = True
+            raised, _e = _call(r, r.param.set_value, name, v)
             _pump(r)
             ctx.count('search:out-of-range')
             if not raised or len(dev.requests) != n0 or _bits(ct, dev.param_toc[i].value) != _bits(ct, before):
@@ -1178,11 +1197,7 @@ def _search_sync(ctx):
                             {'type': ct, 'value': repr(v)}, raised=raised, sent=[d.hex() for (p, c, d) in dev.requests[n0:]])
     for name in ('t.ro', 't.nosuch', 'zz.uint8_t', 'plain'):
         n0 = len(dev.requests)
-        raised = False
-        try:
-            r.s.call(r.param.set_value, name, 1)
-        except Exception:
-            raised = True
+        raised, _e = _call(r, r.param.set_value, name, 1)
         _pump(r)
         ctx.count('search:refusal')
         if not raised or len(dev.requests) != n0:
@@ -1196,6 +1211,8 @@ def _search_sync(ctx):
         dev = S.CrazyflieDevice(protocol_version=5, param_toc=ps)
         r = Real(dev, {}, routing)
         _pump(r)
+        if not _ready(ctx, r, 'fifo'):
+            return
         base = len(dev.requests)
         issued = []
         violations = []
@@ -1216,17 +1233,17 @@ def _search_sync(ctx):
             name = 'g.p%d' % i
             if x < 0.3:
                 v = rand_value(rng, cts[i])
-                r.s.call(r.param.set_value, name, v)
-                issued.append((2, bytes([i, 0]) + struct.pack(FW_FMT[cts[i]], v)))
+                if not _call(r, r.param.set_value, name, v)[0]:
+                    issued.append((2, bytes([i, 0]) + struct.pack(FW_FMT[cts[i]], v)))
             elif x < 0.4:
-                r.s.call(r.param.request_param_update, name)
-                issued.append((1, bytes([i, 0])))
+                if not _call(r, r.param.request_param_update, name)[0]:
+                    issued.append((1, bytes([i, 0])))
             elif x < 0.55:
                 kind = rng.choice(['getdef', 'getstate', 'store', 'clear'])
                 fn = {'getdef': r.param.get_default_value, 'getstate': r.param.persistent_get_state, 'store': r.param.persistent_store,
                       'clear': r.param.persistent_clear}[kind]
-                r.s.call(fn, name, lambda *a: None)
-                issued.append((3, bytes([{'getdef': 6, 'getstate': 4, 'store': 3, 'clear': 5}[kind], i, 0])))
+                if not _call(r, fn, name, lambda *a: None)[0]:
+                    issued.append((3, bytes([{'getdef': 6, 'getstate': 4, 'store': 3, 'clear': 5}[kind], i, 0])))
             elif x < 0.7:
                 r.upd_step()
             elif x < 0.9:
